@@ -73,7 +73,7 @@ def edit(rng, spec, model, n=None, only=None):
                 old_v = o.workamount_skill_mean_map.get(t.name, 0.0)
                 v = rng.choice([x for x in (0.5, 1.0, 2.0, 3.0) if x != old_v])
                 o.workamount_skill_mean_map[t.name] = v
-                for grp, key in ((s["teams"], "workers"), (s["wps"], "facilities")):
+                for grp, key in (((s["teams"], "workers"),) if k == "skill_busy" else ((s["wps"], "facilities"),)):
                     for g in grp:
                         for w in g[key]:
                             if w["id"] == rid:
